@@ -24,6 +24,7 @@ structure SInv (s : St) : Prop where
   protoLt : ∀ c, s.proto = some c → c < s.nconn
   losingConn : s.losing = true → s.proto ≠ none
   rbufConn : s.rbuf ≠ [] → s.proto ≠ none
+  closedLosing : s.closed = true → s.proto ≠ none → s.losing = true
 
 theorem sinv_updateMetadata (cfg : Cfg) (s : St) (h : SInv s) (a b : Nat) : SInv (step cfg s (.updateMetadata a b)).1 := by
   simp only [step]
